@@ -14,7 +14,22 @@ import (
 var (
 	vInt = new(big.Int).Lsh(big.NewInt(1), 127)
 	vDec = new(big.Int).Lsh(big.NewInt(1), 157)
+	// third instantiation of the uninterpreted base: V = 2^63, so that V + V, V*2 - c + c' ... cross the
+	// machine-word boundary 2^64 (operands that fit a uint64 whose sum or difference does not).  The
+	// specification's overflow bound 2*V^2 is NOT the type's bound here: steps the specification calls an
+	// overflow are skipped in this variant.
+	vW64 = new(big.Int).Lsh(big.NewInt(1), 63)
 )
+
+func vOf(variant string) *big.Int {
+	switch variant {
+	case "dec":
+		return vDec
+	case "w64":
+		return vW64
+	}
+	return vInt
+}
 
 func limbVal(c []int, v *big.Int) *big.Int {
 	if len(c) != 3 {
@@ -78,11 +93,14 @@ func numBin(variant, op string, x, y []int) (res *big.Int, cmp int, skip bool, e
 		}
 	}()
 	switch variant {
-	case "int":
-		a := sdk.NewIntFromBigInt(limbVal(x, vInt))
+	case "int", "w64":
+		if variant == "w64" && op == "Quo" {
+			return nil, 0, true, ""
+		}
+		a := sdk.NewIntFromBigInt(limbVal(x, vOf(variant)))
 		var b sdk.BigInt
 		if y != nil {
-			b = sdk.NewIntFromBigInt(limbVal(y, vInt))
+			b = sdk.NewIntFromBigInt(limbVal(y, vOf(variant)))
 		}
 		switch op {
 		case "Add":
@@ -249,10 +267,7 @@ func decRound(x int) (r, t int, err string) {
 
 // numObserve: the observation of a limb-number operation in the specification's vocabulary.
 func numObserve(variant, op string, x, y []int) (got []int, skip bool, err string) {
-	v := vInt
-	if variant == "dec" {
-		v = vDec
-	}
+	v := vOf(variant)
 	if op == "FromString" {
 		if variant != "int" {
 			return nil, true, ""
@@ -294,7 +309,7 @@ func replayNum(in string) {
 		if idx%5000 == 3 {
 			rep.AddSample(beh)
 		}
-		for _, variant := range []string{"int", "dec"} {
+		for _, variant := range []string{"int", "dec", "w64"} {
 			reg := []int{0, 0, 0}
 			for si, s := range beh {
 				op := s.Str("op")
@@ -336,6 +351,9 @@ func replayNum(in string) {
 				if skip {
 					break
 				}
+				if variant == "w64" && len(hx.Ints(s["ret"])) > 0 && hx.Ints(s["ret"])[0] != 0 {
+					break // an overflow of the specification's bound 2*V^2, which is not the type's bound when V = 2^63
+				}
 				rep.Steps++
 				rep.OpCounts[variant+"."+op]++
 				if e != "" {
@@ -357,6 +375,7 @@ func replayNum(in string) {
 	if err != nil {
 		hx.Fatal("%v", err)
 	}
-	rep.Extra["variants"] = []string{"int (V=2^127, BigInt)", "dec (V=2^157, integer under BigDec; rounding ops at 10^18)"}
+	rep.Extra["variants"] = []string{"int (V=2^127, BigInt)", "dec (V=2^157, integer under BigDec; rounding ops at 10^18)",
+		"w64 (V=2^63, BigInt at the machine-word boundary; Add/Sub/Mul/Neg/Cmp, steps the specification calls overflow skipped)"}
 	rep.Print()
 }
